@@ -1,4 +1,4 @@
-"""Rules over conv_tools.py shared by C06 and C16: GEOM typestate, OUTSIZE normal forms, EMPTY guards, pairing / layout / pad-crop."""
+"""GEOM typestate for the pool / conv kernels of cpu_ops (dominance form).  The conv_tools rules live in rules_convpe.py (evaluated paths)."""
 import ast
 from .core import norm, dotted, names_in, body_walk
 from .cfg import CFG, facts_at
@@ -22,8 +22,9 @@ def _stmt(f, node):
 
 
 # ------------------------------------------------------------------------------------------------ GEOM
-def check_geom(model, R, P_, funcs):
-    R.rule(P_ + '.GEOM', 'int-or-tuple geometry arguments (kernel_size, stride, padding, dilation, step, output_size) are subscripted only after `p = np.broadcast_to(p, n)` dominates the use', floor=8)
+def check_geom(model, R, P_, funcs, declare=True):
+    if declare:
+        R.rule(P_ + '.GEOM', 'int-or-tuple geometry arguments (kernel_size, stride, padding, dilation, step, output_size) are subscripted only after `p = np.broadcast_to(p, n)` dominates the use', floor=8)
     for f in funcs:
         gp = [p for p in f.params if p in GEOM]
         if not gp:
@@ -50,279 +51,3 @@ def check_geom(model, R, P_, funcs):
                  '%s may be an int (documented int-or-tuple) and is subscripted (%s) without a dominating np.broadcast_to' % (p, sorted(set(bad))[:3]), f.loc)
 
 
-# ------------------------------------------------------------------------------------------------ OUTSIZE
-def _ref(L, p, d, k, s):
-    return floor((L + 2 * p - d * (k - 1) - 1) / s) + 1
-
-
-def _build(model, f, upto_lineno=None, extra_atoms=None):
-    """forward-substitute single-assignment scalar locals of f into POLY terms"""
-    env = {}
-
-    def atom_of(e):
-        t = norm(e)
-        if extra_atoms and t in extra_atoms:
-            return extra_atoms[t]
-        if isinstance(e, (ast.Attribute, ast.Subscript)):
-            return P.atom(t)
-        return None
-    for n in sorted([x for x in body_walk(f.node) if isinstance(x, ast.Assign) and isinstance(x.targets[0], ast.Name)], key=lambda x: x.lineno):
-        if upto_lineno is not None and n.lineno > upto_lineno:
-            break
-        nm = n.targets[0].id
-        if isinstance(n.value, ast.Call) and model.resolve(f.mod, n.value.func) == 'numpy.broadcast_to':
-            continue
-        try:
-            env[nm] = TermBuilder(env, atom_of, model, f.mod).build(n.value)
-        except Unsupported:
-            env.pop(nm, None)
-    return env, atom_of
-
-
-def check_outsize(model, R, P_):
-    R.rule(P_ + '.OUTSIZE', 'every output-size computation has the normal form floor((L + 2p - d(k-1) - 1)/s) + 1 in its own atoms (all variants count windows alike)', floor=8)
-    A = P.atom
-    sites = []
-    f = model.func(CT + '.get_conv1d_output_size')
-    rets = [n for n in body_walk(f.node) if isinstance(n, ast.Return)]
-    env, atom_of = _build(model, f)
-    if rets and isinstance(rets[0].value, ast.Name):
-        _b = [n for n in body_walk(f.node) if isinstance(n, ast.Assign) and norm(n.targets[0]) == rets[0].value.id]
-        rets = [_b[-1]] if _b else rets
-    sites.append((f, rets[0].targets[0].id if rets and isinstance(rets[0], ast.Assign) else '<return>', rets[0].value if rets else None, env, atom_of, _ref(A('input_length'), A('padding'), A('dilation'), A('kernel_size'), A('stride'))))
-    for q in ('get_conv2d_output_size', 'im2col_v2', 'col2im_v2'):
-        f = model.func(CT + '.' + q)
-        env, atom_of = _build(model, f)
-        for var, L, i in (('lH', 'H', 0), ('lW', 'W', 1)):
-            binds = [n for n in body_walk(f.node) if isinstance(n, ast.Assign) and norm(n.targets[0]) == var]
-            sites.append((f, var, binds[0].value if binds else None, env, atom_of,
-                          _ref(A(L), A('padding[%d]' % i), A('dilation[%d]' % i), A('kernel_size[%d]' % i), A('stride[%d]' % i))))
-    for f, var, expr, env, atom_of, want in sites:
-        if expr is None:
-            R.incomplete_at(P_ + '.OUTSIZE', f.qualname, 'size computation %s not found' % var)
-            continue
-        try:
-            e2 = {k: v for k, v in env.items() if k != var}
-            got = TermBuilder(e2, atom_of, model, f.mod).build(expr)
-        except Unsupported as u:
-            R.incomplete_at(P_ + '.OUTSIZE', f.qualname, '%s: %s' % (var, u))
-            continue
-        R.ob(P_ + '.OUTSIZE', f.qualname, '%s = %s' % (var, got.canon()[:140]), got == want, 'documented output length: %s' % want.canon(), _loc(f, expr))
-    # extract_windows: vector form over the PADDED extent
-    f = model.func(CT + '.extract_windows')
-    cfg = CFG(f.node)
-    binds = [n for n in body_walk(f.node) if isinstance(n, ast.Assign) and norm(n.targets[0]) == 'out_shape']
-    binds.sort(key=lambda n: n.lineno)
-    ok = False
-    got = None
-    if binds:
-        v = binds[0].value
-        if isinstance(v, ast.Call) and dotted(v.func) == 'tuple' and v.args:
-            v = v.args[0]
-        try:
-            got = TermBuilder({}, lambda e: P.atom(norm(e)) if isinstance(e, (ast.Attribute, ast.Subscript)) else None, model, f.mod).build(v)
-            want = floor((P.atom('in_shape') - P.atom('dilation') * (P.atom('kernel_size') - 1) - 1) / P.atom('step')) + 1
-            ok = got == want
-        except Unsupported as u:
-            got = None
-    pads = [n for n in body_walk(f.node) if isinstance(n, ast.Assign) and isinstance(n.value, ast.Call) and model.resolve(f.mod, n.value.func) == 'numpy.pad']
-    ins = [n for n in body_walk(f.node) if isinstance(n, ast.Assign) and norm(n.targets[0]) == 'in_shape']
-    ok_pad = len(pads) == 1 and len(ins) == 1 and binds and cfg.dominates(pads[0], ins[0]) and cfg.dominates(ins[0], binds[0]) and '(padding[d], padding[d])' in norm(pads[0].value) \
-        and norm(ins[0].value).replace(' ', '') in ('np.array(a.shape[-len(step):])',)
-    R.ob(P_ + '.OUTSIZE', f.qualname, 'out_shape = %s over the padded extent' % (got.canon()[:100] if got is not None else None), ok and bool(ok_pad),
-         'window count along each axis must be floor((L + 2p - d(k-1) - 1)/s) + 1 (L + 2p = extent after symmetric np.pad)', f.loc)
-    # place_windows / col2im_fast / get_im2col_indices / extract_windows delegate to the shared helpers
-    for q, names in (('place_windows', {'get_conv1d_output_size', 'get_conv2d_output_size'}), ('col2im_fast', {'get_conv2d_output_size'}), ('get_im2col_indices', {'get_conv2d_output_size'}),
-                     ('extract_windows', {'get_conv1d_output_size', 'get_conv2d_output_size'})):
-        f = model.func(CT + '.' + q)
-        calls = {dotted(c.func): c for c in ast.walk(f.node) if isinstance(c, ast.Call) and dotted(c.func) in names}
-        ok = set(calls) == names
-        roles_ok = True
-        for nm, c in calls.items():
-            callee = model.func(CT + '.' + nm)
-            b, _ = bind_call(c, callee)
-            for prm in ('kernel_size', 'dilation', 'padding'):
-                if prm in b and norm(b[prm]) != prm:
-                    roles_ok = False
-            if 'stride' in b and norm(b['stride']) not in ('stride', 'step'):
-                roles_ok = False
-        R.ob(P_ + '.OUTSIZE', f.qualname, 'window count through %s' % sorted(calls), ok and roles_ok, 'the shared output-size helpers must receive each geometry argument in its own role', f.loc)
-
-
-# ------------------------------------------------------------------------------------------------ EMPTY
-def check_empty(model, R, P_):
-    R.rule(P_ + '.EMPTY', 'every entry point that computes a window count rejects an empty output with a raise that dominates the array construction', floor=3)
-    for q, sink in (('extract_windows', 'as_strided'), ('get_im2col_indices', 'np.repeat'), ('im2col_v2', 'np.zeros')):
-        f = model.func(CT + '.' + q)
-        cfg = CFG(f.node)
-        guards = [n for n in body_walk(f.node) if isinstance(n, ast.If) and n.body and isinstance(n.body[-1], ast.Raise) and isinstance(n.test, ast.Compare) and norm(n.test.left) == 'L'
-                  and norm(n.test.comparators[0]) == '0' and isinstance(n.test.ops[0], (ast.LtE, ast.Eq, ast.Lt))]
-        sinks = [_stmt(f, c) for c in ast.walk(f.node) if isinstance(c, ast.Call) and sink in norm(c.func)]
-        ok = len(guards) == 1 and sinks and all(s is not None and cfg.dominates(guards[0], s) for s in sinks) and not isinstance(guards[0].test.ops[0], ast.Lt)
-        R.ob(P_ + '.EMPTY', f.qualname, 'guard `%s`' % (norm(guards[0].test) if guards else None), bool(ok), 'a geometry with no window must raise before any array is built', f.loc)
-        if guards and isinstance(guards[0].test.ops[0], ast.Eq):
-            R.note('%s tests L == 0 while its siblings test L <= 0 (negative extents reach NumPy, which raises too): sibling inconsistency, not a violation' % q)
-
-
-# ------------------------------------------------------------------------------------------------ C16 pairing / layout
-def check_pairs(model, R, P_):
-    R.rule(P_ + '.PAIR-INDEX', 'im2col gathers and col2im scatter-adds through the index triple of the same helper called with the same argument roles', floor=3)
-    R.rule(P_ + '.PAIR-SLICE', 'im2col_v2 and col2im_v2 use polynomially equal window slices and the same column index', floor=7)
-    R.rule(P_ + '.PAIR-FAST', 'im2col_fast / col2im_fast hand identical geometry roles to extract_windows / place_windows and use mutually inverse reshapes / axis moves', floor=4)
-    R.rule(P_ + '.PADCROP', 'padding added as (p, p) per axis is removed by the crop p : size_with_pad - p in every col2im variant; pad_value is forwarded by every im2col variant', floor=6)
-    R.rule(P_ + '.LAYOUT2D', 'the 2-D column layout is produced by transpose(1, 2, 0).reshape(C*kH*kW, -1) and inverted by reshape(C*kH*kW, -1, N).transpose(2, 0, 1)', floor=4)
-    im, co = model.func(CT + '.im2col'), model.func(CT + '.col2im')
-    idx = model.func(CT + '.get_im2col_indices')
-    calls = []
-    for f in (im, co):
-        cs = [c for c in ast.walk(f.node) if isinstance(c, ast.Call) and dotted(c.func) == 'get_im2col_indices']
-        if len(cs) != 1:
-            R.incomplete_at(P_ + '.PAIR-INDEX', f.qualname, 'call of get_im2col_indices not found')
-            return
-        b, _ = bind_call(cs[0], idx)
-        calls.append({k: norm(v) for k, v in b.items()})
-    roles = {k: (calls[0].get(k), calls[1].get(k)) for k in ('kernel_size', 'dilation', 'stride', 'padding')}
-    R.ob(P_ + '.PAIR-INDEX', co.qualname, 'index helper roles %s' % roles, all(a == b == k for k, (a, b) in roles.items()), 'gather and scatter must use the index set of the same geometry', co.loc)
-    shape_ok = calls[0].get('a_shape') in ('a.shape',) and calls[1].get('a_shape') in ('(N, C, H, W)', 'output_shape')
-    R.ob(P_ + '.PAIR-INDEX', co.qualname, 'index helper shapes %s / %s' % (calls[0].get('a_shape'), calls[1].get('a_shape')), shape_ok, 'indices must be computed for the un-padded image shape on both sides', co.loc)
-    gather = [n for n in ast.walk(im.node) if isinstance(n, ast.Subscript) and norm(n.value) == 'x_padded']
-    scat = [c for c in ast.walk(co.node) if isinstance(c, ast.Call) and norm(c.func) == 'np.add.at']
-    ok = len(gather) == 1 and len(scat) == 1 and norm(gather[0].slice).replace(' ', '') in ('(slice(None,None,None),k,i,j)', ':,k,i,j', '(:,k,i,j)') \
-        and norm(scat[0].args[1]).replace(' ', '') == '(slice(None),k,i,j)' and norm(scat[0].args[0]) == 'output'
-    R.ob(P_ + '.PAIR-INDEX', co.qualname, 'gather x_padded[:, k, i, j] / scatter np.add.at(output, (slice(None), k, i, j), ...)', ok, 'the same (k, i, j) triple in the same positions, scatter accumulating', co.loc)
-    # ---- PAIR-SLICE
-    v2i, v2c = model.func(CT + '.im2col_v2'), model.func(CT + '.col2im_v2')
-    terms = []
-    for f in (v2i, v2c):
-        loops = [n for n in ast.walk(f.node) if isinstance(n, ast.For) and norm(n.iter) == 'range(lH)']
-        inner = [n for l in loops for n in ast.walk(l) if isinstance(n, ast.For) and norm(n.iter) == 'range(lW)']
-        if not inner:
-            R.incomplete_at(P_ + '.PAIR-SLICE', f.qualname, 'window loops not found')
-            return
-        env = {}
-        atom_of = lambda e: P.atom(norm(e)) if isinstance(e, (ast.Attribute, ast.Subscript)) else None
-        d = {}
-        for n in inner[0].body:
-            if isinstance(n, ast.Assign) and isinstance(n.targets[0], ast.Name):
-                try:
-                    d[n.targets[0].id] = TermBuilder(d, atom_of).build(n.value)
-                except Unsupported:
-                    pass
-        col = [norm(x.slice.elts[-1]) for x in ast.walk(inner[0]) if isinstance(x, ast.Subscript) and isinstance(x.slice, ast.Tuple) and isinstance(x.slice.elts[-1], ast.BinOp)]
-        win = [norm(x.slice) for x in ast.walk(inner[0]) if isinstance(x, ast.Subscript) and 'h_start' in norm(x.slice)]
-        terms.append((d, col, win))
-    for nm in ('h_start', 'h_end', 'h_step', 'w_start', 'w_end', 'w_step'):
-        a, b = terms[0][0].get(nm), terms[1][0].get(nm)
-        R.ob(P_ + '.PAIR-SLICE', v2c.qualname, '%s: %s' % (nm, a.canon() if a is not None else None), a is not None and a == b, 'both variants must address the same window (got %s vs %s)' % (a.canon() if a is not None else None, b.canon() if b is not None else None), v2c.loc)
-    i, j, s0, s1, k0, k1, d0, d1 = [P.atom(x) for x in ('i', 'j', 'stride[0]', 'stride[1]', 'kernel_size[0]', 'kernel_size[1]', 'dilation[0]', 'dilation[1]')]
-    wantd = {'h_start': i * s0, 'h_end': i * s0 + d0 * (k0 - 1) + 1, 'h_step': d0, 'w_start': j * s1, 'w_end': j * s1 + d1 * (k1 - 1) + 1, 'w_step': d1}
-    okw = all(terms[0][0].get(k) == v for k, v in wantd.items())
-    cols = set(terms[0][1]) | set(terms[1][1])
-    okw = okw and bool(terms[0][1]) and bool(terms[1][1])
-    wins = set(terms[0][2]) | set(terms[1][2])
-    R.ob(P_ + '.PAIR-SLICE', v2i.qualname, 'window = [i*s : i*s + d*(k-1) + 1 : d], column %s, slices %s' % (sorted(cols), sorted(wins)), okw and cols == {'i * lW + j'} and len(wins) == 1,
-         'window i, j covers rows i*s .. i*s + d(k-1) step d and lands in column i*lW + j (row-major block order)', v2i.loc)
-    # ---- PAIR-FAST
-    fi, fc = model.func(CT + '.im2col_fast'), model.func(CT + '.col2im_fast')
-    ew = [c for c in ast.walk(fi.node) if isinstance(c, ast.Call) and dotted(c.func) == 'extract_windows']
-    pw = [c for c in ast.walk(fc.node) if isinstance(c, ast.Call) and dotted(c.func) == 'place_windows']
-    if len(ew) == 1 and len(pw) == 1:
-        eb, _ = bind_call(ew[0], model.func(CT + '.extract_windows'))
-        pb, _ = bind_call(pw[0], model.func(CT + '.place_windows'))
-        roles = {k: (norm(eb.get(k)) if k in eb else None, norm(pb.get(k)) if k in pb else None) for k in ('kernel_size', 'step', 'padding', 'dilation')}
-        ok = all(a == b and a is not None for a, b in roles.values()) and roles['step'][0] == 'stride'
-        R.ob(P_ + '.PAIR-FAST', fc.qualname, 'geometry roles %s' % roles, ok, 'extract_windows and place_windows must receive the same argument in each role (step = stride)', fc.loc)
-        R.ob(P_ + '.PAIR-FAST', fi.qualname, 'pad_value forwarded: %s' % (norm(eb['pad_value']) if 'pad_value' in eb else None), norm(eb.get('pad_value')) == 'pad_value' if 'pad_value' in eb else False, 'the caller\'s pad value must reach the extractor', fi.loc)
-    else:
-        R.incomplete_at(P_ + '.PAIR-FAST', fc.qualname, 'extract_windows / place_windows calls not found')
-    mv_i = [c for c in ast.walk(fi.node) if isinstance(c, ast.Call) and norm(c.func) == 'np.moveaxis']
-    mv_c = [c for c in ast.walk(fc.node) if isinstance(c, ast.Call) and norm(c.func) == 'np.moveaxis']
-    ok = len(mv_i) == 1 and len(mv_c) == 1 and [norm(a) for a in mv_i[0].args[1:]] == ['0', '2'] and [norm(a) for a in mv_c[0].args[1:]] == ['2', '0']
-    R.ob(P_ + '.PAIR-FAST', fc.qualname, 'unfold layout: moveaxis(0 -> 2) / moveaxis(2 -> 0)', ok, 'the window axis move of im2col_fast must be undone by the inverse move in col2im_fast', fc.loc)
-    t_i = [n for n in ast.walk(fi.node) if isinstance(n, ast.Attribute) and n.attr == 'T']
-    t_c = [n for n in ast.walk(fc.node) if isinstance(n, ast.Attribute) and n.attr == 'T']
-    rs_i = [norm(npcall(model, fi, c)[1].get('newshape')).replace(' ', '') for c in npcalls(model, fi, 'reshape') if npcall(model, fi, c)[1].get('newshape') is not None]
-    rs_c = [norm(npcall(model, fc, c)[1].get('newshape')).replace(' ', '') for c in npcalls(model, fc, 'reshape') if npcall(model, fc, c)[1].get('newshape') is not None]
-    ok = len(t_i) == 1 and len(t_c) == 1 and '(N*L,C*kernel_size[0]*kernel_size[1])' in rs_i and rs_c.count('(lH,lW,N,C,kernel_size[0],kernel_size[1])') == 2
-    R.ob(P_ + '.PAIR-FAST', fc.qualname, '2-D layout: reshape(N*L, CkHkW).T / .T.reshape(lH, lW, N, C, kH, kW)', ok, 'the column-matrix layout and its inverse', fc.loc)
-    # ---- PADCROP
-    for q in ('col2im', 'col2im_v2'):
-        f = model.func(CT + '.' + q)
-        crops = [n for n in body_walk(f.node) if isinstance(n, ast.Assign) and norm(n.targets[0]) == 'output' and isinstance(n.value, ast.Subscript) and norm(n.value.value) == 'output']
-        ok = len(crops) == 1 and norm(crops[0].value.slice).replace(' ', '') in ('(:,:,padding[0]:H_with_pad-padding[0],padding[1]:W_with_pad-padding[1])', ':,:,padding[0]:H_with_pad-padding[0],padding[1]:W_with_pad-padding[1]')
-        hw = {norm(n.targets[0]): norm(n.value) for n in body_walk(f.node) if isinstance(n, ast.Assign) and norm(n.targets[0]) in ('H_with_pad', 'W_with_pad')}
-        ok = ok and hw == {'H_with_pad': 'H + 2 * padding[0]', 'W_with_pad': 'W + 2 * padding[1]'}
-        R.ob(P_ + '.PADCROP', f.qualname, 'crop %s' % (norm(crops[0].value.slice)[:80] if crops else None), ok, 'the buffer is allocated with (p, p) padding per axis and the result is the crop p : size_with_pad - p', f.loc)
-    pwf = model.func(CT + '.place_windows')
-    crops = [n for n in body_walk(pwf.node) if isinstance(n, ast.Assign) and norm(n.targets[0]) == 'no_pads']
-    ok = len(crops) == 1 and norm(crops[0].value).replace(' ', '') == 'tuple((slice(p,-pifpelseNone)forpinpadding))'
-    R.ob(P_ + '.PADCROP', pwf.qualname, 'crop %s' % (norm(crops[0].value)[:80] if crops else None), ok, 'place_windows removes exactly the padding it allocated (slice(p, -p) per axis, None when p == 0)', pwf.loc)
-    for q in ('im2col', 'im2col_v2', 'extract_windows'):
-        f = model.func(CT + '.' + q)
-        pads = [c for c in ast.walk(f.node) if isinstance(c, ast.Call) and norm(c.func) == 'np.pad']
-        ok = len(pads) == 1 and any(k.arg == 'constant_values' and norm(k.value) == 'pad_value' for k in pads[0].keywords) and '(padding[d], padding[d])' in norm(pads[0]) \
-            and "mode='constant'" in norm(pads[0])
-        R.ob(P_ + '.PADCROP', f.qualname, norm(pads[0])[:90] if pads else 'no pad', ok, 'symmetric constant padding with the caller\'s pad_value on the spatial axes only', f.loc)
-    # ---- LAYOUT2D
-    for q in ('im2col', 'im2col_v2'):
-        f = model.func(CT + '.' + q)
-        perms = [(literal_perm(model, f, c), c) for c in ast.walk(f.node) if isinstance(c, ast.Call) and literal_perm(model, f, c) is not None]
-        resh = []
-        for c in npcalls(model, f, 'reshape'):
-            ns = npcall(model, f, c)[1].get('newshape')
-            if ns is not None and isinstance(ns, ast.Tuple) and len(ns.elts) == 2 and norm(ns.elts[1]) == '-1':
-                try:
-                    t = TermBuilder({}, lambda e: P.atom(norm(e)) if isinstance(e, (ast.Attribute, ast.Subscript)) else None).build(ns.elts[0])
-                    resh.append((t, c))
-                except Unsupported:
-                    pass
-        want = P.atom('C') * P.atom('kernel_size[0]') * P.atom('kernel_size[1]')
-        ok = [p for (p, _), _ in perms] == [(1, 2, 0)] and len(resh) == 1 and resh[0][0] == want
-        # the reshape is applied to the transposed array
-        if ok:
-            a0 = npcall(model, f, resh[0][1])[1].get('a')
-            ok = any(x is perms[0][1] for x in ast.walk(a0)) or (isinstance(a0, ast.Name) and any(isinstance(n, ast.Assign) and norm(n.targets[0]) == a0.id and any(x is perms[0][1] for x in ast.walk(n.value)) for n in body_walk(f.node)))
-        st = _stmt(f, perms[0][1]) if perms else None
-        cfg = CFG(f.node)
-        guard_ok = st is not None and ('as_unfold', False) in {(t, p) for t, p, _ in facts_at(cfg, st)}
-        R.ob(P_ + '.LAYOUT2D', f.qualname, '2-D layout transpose%s then reshape(C*kH*kW, -1)' % ([p for (p, _), _ in perms],), ok and guard_ok,
-             'the (C*kH*kW, N*L) matrix is transpose(1, 2, 0).reshape(C*kH*kW, -1) of the unfold layout, only when as_unfold is False', f.loc)
-    for q in ('col2im', 'col2im_v2'):
-        f = model.func(CT + '.' + q)
-        perms = [literal_perm(model, f, c)[0] for c in ast.walk(f.node) if isinstance(c, ast.Call) and literal_perm(model, f, c) is not None]
-        resh = []
-        for c in npcalls(model, f, 'reshape'):
-            ns = npcall(model, f, c)[1].get('newshape')
-            if ns is not None and isinstance(ns, ast.Tuple) and len(ns.elts) == 3 and norm(ns.elts[1]) == '-1' and norm(ns.elts[2]) == 'N':
-                try:
-                    resh.append(TermBuilder({}, lambda e: P.atom(norm(e)) if isinstance(e, (ast.Attribute, ast.Subscript)) else None).build(ns.elts[0]))
-                except Unsupported:
-                    pass
-        want = P.atom('C') * P.atom('kernel_size[0]') * P.atom('kernel_size[1]')
-        ok = perms == [(2, 0, 1)] and len(resh) == 1 and resh[0] == want
-        R.ob(P_ + '.LAYOUT2D', f.qualname, 'inverse 2-D layout reshape(C*kH*kW, -1, N) then transpose%s' % perms, ok, 'the column matrix is brought back by reshape(C*kH*kW, -1, N).transpose(2, 0, 1) (inverse of transpose(1, 2, 0))', f.loc)
-
-
-# ------------------------------------------------------------------------------------------------ STRIDED
-def check_strided(model, R, P_):
-    """the byte strides of the sliding-window view are computed for a C-contiguous array"""
-    R.rule(P_ + '.STRIDED', 'the array handed to as_strided (and whose row-major strides are computed by hand) is made C-contiguous first; element size comes from the array\'s own strides', floor=2)
-    f = model.func(CT + '.extract_windows')
-    cfg = CFG(f.node)
-    asv = [c for c in ast.walk(f.node) if isinstance(c, ast.Call) and norm(c.func).endswith('as_strided')]
-    cont = [n for n in body_walk(f.node) if isinstance(n, ast.Assign) and isinstance(n.value, ast.Call) and model.resolve(f.mod, n.value.func) == 'numpy.ascontiguousarray'
-            and norm(n.targets[0]) == norm(n.value.args[0]) == f.pos_params[0]]
-    ok = len(asv) == 1 and len(cont) == 1
-    if ok:
-        st = _stmt(f, asv[0])
-        conds = {(t, p) for t, p, _ in facts_at(cfg, cont[0])}
-        guard_ok = not conds or conds == {("a.flags['C_CONTIGUOUS']", False)}
-        top = cont[0]
-        for s_ in f.node.body:
-            if any(x is cont[0] for x in ast.walk(s_)):
-                top = s_
-        ok = guard_ok and cfg.dominates(top, st) and norm(asv[0].args[0]) == f.pos_params[0]
-    R.ob(P_ + '.STRIDED', f.qualname, 'ascontiguousarray guard before as_strided', ok,
-         'hand-computed row-major strides are only valid for a C-contiguous array (np.pad keeps Fortran order, so padding alone is not enough)', f.loc)
-    nb = [n for n in body_walk(f.node) if isinstance(n, ast.Assign) and norm(n.targets[0]) == 'nbyte']
-    R.ob(P_ + '.STRIDED', f.qualname, norm(nb[0]) if nb else 'no element size', len(nb) == 1 and norm(nb[0].value) in ('a.strides[-1]',), 'the element stride must be taken from the (contiguous) array itself', f.loc)
